@@ -13,7 +13,8 @@ Input : the output of `gcc -E` on a file of /repo (the code that is compiled), a
         (a) CBMC reports clause locations as file `SPEC/<function>/<section>` line = clause ordinal,
         (b) locations of the real code still point into /repo.
         unweave() removes the insertions; weave() asserts unweave(woven) == input, byte for byte.
-What the extraction drops: nothing.  What it adds: specification clauses, no executable code.
+What the extraction drops: nothing.  What it adds: specification clauses, no executable code (and, only where a spec asks for it
+with `@separate_do_head N`, one empty statement `;` at the start of a do-while body -- see parse_spec).
 A missing function, or a loop count different from `@nloops`, raises WeaveError (runner: exit 2).
 """
 import os
@@ -176,7 +177,7 @@ def parse_spec(text):
             parts = line.split()
             key = parts[0]
             if key == '@function':
-                cur = dict(function=parts[1], nloops=None, prelude=[], contract=[], loops={})
+                cur = dict(function=parts[1], nloops=None, prelude=[], contract=[], loops={}, sephead=set())
                 specs.append(cur); sec = None
             elif key == '@nloops':
                 cur['nloops'] = int(parts[1])
@@ -186,6 +187,12 @@ def parse_spec(text):
                 sec = cur['contract']
             elif key == '@loop':
                 sec = cur['loops'].setdefault(int(parts[1]), [])
+            elif key == '@separate_do_head':
+                # cbmc 6.11 merges `do { while (c) {..} .. } while (d);` into ONE natural loop when the inner loop is the first
+                # statement of the do body (shared loop head) and then rejects/ignores the two loop contracts.  An EMPTY
+                # STATEMENT right after the `{` of the do body gives the loops distinct heads.  It is the only insertion
+                # that is not a specification clause; it generates no code and unweave() removes it like every other one.
+                cur['sephead'].add(int(parts[1]))
             else:
                 raise WeaveError(f'spec: unknown directive {key}')
             continue
@@ -245,6 +252,12 @@ def weave(src, specs):
                 j = rptok
                 d = 0
                 if kind == 'do':
+                    if od in sp.get('sephead', ()):
+                        jb = rptok + 1
+                        while toks[jb][0] == 'pp': jb += 1
+                        if src[toks[jb][1]:toks[jb][2]] != '{':
+                            raise WeaveError(f'{fn}: @separate_do_head {od}: do body is not a block')
+                        inserts.append((toks[jb][2], '/*@W*/;/*W@*/'))
                     f1, l1 = line_at(src, toks, rptok)
                     cmap[('LOOP', os.path.basename(f1), l1)] = (fn, f'loop{od}')
                     continue
